@@ -159,6 +159,9 @@ enum Ev {
     Replicate(usize, usize),
     Crash(usize),
     Inject(usize, usize, M, bool, bool),       // src dst msg geo elapsed (directed templates)
+    /// leader `src` snapshots its committed prefix 1..=min(upto, commit) (finalize_to + create_snapshot) and
+    /// follower `dst` installs it (install_snapshot), delivered at once
+    Snap(usize, usize, u64),
 }
 
 struct Cfg {
@@ -174,6 +177,8 @@ struct Cluster {
     nodes: Vec<Option<RaftNode>>,
     dir: Option<tempfile::TempDir>,
     hb_old: Vec<bool>,
+    /// last_included_index of the snapshot each node installed since its last start (volatile in the node)
+    snap_idx: Vec<u64>,
     pool: Vec<(usize, usize, M)>,
     // monitors
     leaders: BTreeMap<u64, u64>,                 // term -> leader id
@@ -216,6 +221,7 @@ impl Cluster {
             nodes: vec![],
             dir,
             hb_old: vec![false; n],
+            snap_idx: vec![0; n],
             pool: vec![],
             leaders: BTreeMap::new(),
             committed: BTreeMap::new(),
@@ -430,15 +436,78 @@ fn exec(cl: &mut Cluster, ev: &Ev, run: &mut Run, trace: &mut Vec<String>, strea
             if cl.dir.is_none() {
                 return true;
             }
+            let held = fields(&cl.node(i).verif_dump())["log"].clone();
             cl.nodes[i] = None; // drop: closes the WAL
             let nd = cl.make_node(i);
             cl.nodes[i] = Some(nd);
             cl.hb_old[i] = false;
+            cl.snap_idx[i] = 0;
             let line = format!("crash {i}");
             trace.push(line.clone());
+            // durable state = held state: every entry the node held (and may have acknowledged) went to
+            // the WAL before it was held, so a restart recovers exactly the log the node had in memory
+            let recovered = fields(&cl.node(i).verif_dump())["log"].clone();
+            if recovered != held {
+                run.rep.violation(
+                    "tensor_chain.raft/restart_log_differs_from_held_log",
+                    &format!("node {i} held log {held} before the crash, restarted from its WAL with {recovered}"),
+                    json!({"n": cl.cfg.n, "pre_vote": cl.cfg.pre_vote, "geo": cl.cfg.geo, "fast_path": cl.cfg.fast_path, "wal": cl.cfg.wal, "events": trace}),
+                );
+            }
             let ans = run.ask(&line);
             ok &= cmp(run, &line, &format!("ok || {}", cl.node(i).verif_dump()), &ans, trace);
             run.rep.hit("ev.crash");
+        }
+        Ev::Snap(src, dst, upto) => {
+            let (src, dst) = (*src, *dst);
+            if src == dst {
+                return true;
+            }
+            let (s, d) = (cl.node(src), cl.node(dst));
+            let k = (*upto).min(s.commit_index());
+            let sl = parse_log(&fields(&s.verif_dump())["log"]);
+            let dl = parse_log(&fields(&d.verif_dump())["log"]);
+            // A snapshot is what the leader of the follower's current term ships to a follower that lacks
+            // the snapshot's last entry (it is behind, or holds a divergent suffix there). install_snapshot
+            // itself checks neither the sender's term nor the receiver's role and keeps no suffix: a
+            // snapshot delivered late / to a node of another term is outside this event (see the note).
+            if !s.is_leader()
+                || k == 0
+                || d.state() != tensor_chain::raft::RaftState::Follower
+                || d.current_term() != s.current_term()
+                || dl.get(k as usize - 1) == sl.get(k as usize - 1)
+            {
+                run.rep.hit("snap.skipped");
+                return true;
+            }
+            let fresh = k > cl.snap_idx[dst];
+            let peers = cl.peers(dst);
+            let r = s.finalize_to(k).and_then(|()| s.create_snapshot()).and_then(|(mut meta, data)| {
+                // fixed membership: the receiver's peer list stays its own (the sender's `config` is the
+                // sender's peer list, which names the receiver and omits the sender)
+                meta.config = peers;
+                d.install_snapshot(meta, &data)
+            });
+            let line = format!("snap {src} {dst} {k} {}", b(fresh));
+            trace.push(line.clone());
+            let ans = run.ask(&line);
+            let dump = cl.node(dst).verif_dump();
+            ok &= cmp(run, &line, &format!("{} || {}", if r.is_ok() { "ok" } else { "refused" }, dump), &ans, trace);
+            run.rep.hit(if r.is_ok() { "snap.installed" } else { "snap.refused" });
+            if r.is_ok() {
+                cl.snap_idx[dst] = k;
+                if dl.len() as u64 > k || dl.iter().zip(sl.iter()).take(k as usize).any(|(x, y)| x != y) {
+                    run.rep.hit("snap.over_divergent_or_longer_log");
+                }
+                let now = parse_log(&fields(&dump)["log"]);
+                if now[..] != sl[..k as usize] {
+                    run.rep.violation(
+                        "tensor_chain.raft/snapshot_install_log",
+                        &format!("node {dst} installed the snapshot 1..={k} of node {src} and holds {now:?}"),
+                        json!({"n": cl.cfg.n, "pre_vote": cl.cfg.pre_vote, "geo": cl.cfg.geo, "fast_path": cl.cfg.fast_path, "wal": cl.cfg.wal, "events": trace}),
+                    );
+                }
+            }
         }
     }
     ok
@@ -449,7 +518,7 @@ fn monitors(cl: &mut Cluster, rep: &mut Report, trace: &[String]) -> bool {
     let mut fine = true;
     let dumps: Vec<BTreeMap<String, String>> = (0..cl.cfg.n).map(|i| fields(&cl.node(i).verif_dump())).collect();
     let logs: Vec<Vec<(u64, u64)>> = dumps.iter().map(|d| parse_log(&d["log"])).collect();
-    let tail = || json!({"n": cl.cfg.n, "pre_vote": cl.cfg.pre_vote, "geo": cl.cfg.geo, "fast_path": cl.cfg.fast_path, "events": trace});
+    let tail = || json!({"n": cl.cfg.n, "pre_vote": cl.cfg.pre_vote, "geo": cl.cfg.geo, "fast_path": cl.cfg.fast_path, "wal": cl.cfg.wal, "events": trace});
     for (i, d) in dumps.iter().enumerate() {
         let term: u64 = d["t"].parse().unwrap_or(0);
         if d.contains_key("INDEX-MISMATCH") {
@@ -561,6 +630,15 @@ fn gen_event(r: &mut Rng, cl: &Cluster, next_payload: &mut u64, part: Option<&[u
         let i = if !leaders.is_empty() && r.chance(9, 10) { *r.pick(&leaders) } else { r.below(n as u64) as usize };
         *next_payload += 1;
         Ev::Propose(i, *next_payload, r.chance(9, 10))
+    } else if x < p_repl && !leaders.is_empty() && r.chance(1, 6) {
+        // the leader ships a snapshot of (part of) its committed prefix to some other node
+        let i = *r.pick(&leaders);
+        let mut j = r.below(n as u64) as usize;
+        if j == i {
+            j = (j + 1) % n;
+        }
+        let c = cl.node(i).commit_index().max(1);
+        Ev::Snap(i, j, 1 + r.below(c))
     } else if x < p_repl {
         let i = if !leaders.is_empty() && r.chance(9, 10) { *r.pick(&leaders) } else { r.below(n as u64) as usize };
         let mut j = r.below(n as u64) as usize;
@@ -579,12 +657,83 @@ fn init_line(c: &Cfg) -> String {
     format!("init {} {} 1 10", c.n, b(c.geo))
 }
 
+/// The history a snapshot install has to survive (A=0 has the WAL and restarts, B=1, C=2; 3 voters):
+/// A leads term 1 and commits `a` entries everywhere, then accepts `d` more that nobody else ever sees;
+/// B is elected in term 2 by C and commits `m` entries of its own at the same positions; A learns of
+/// term 2; B ships a snapshot of its committed prefix 1..=k to A (over A's divergent suffix when
+/// a < k and d > 0), then `rounds` AppendEntries exchanges put the rest of B's log on top; A crashes and
+/// restarts from its WAL, is elected in term 3 by C and commits an entry of its own.
+fn snap_shape(a: u64, d: u64, m: u64, k: u64, rounds: usize, crash: bool, payload: &mut u64) -> Vec<Ev> {
+    fn elect(x: usize, evs: &mut Vec<Ev>) {
+        evs.push(Ev::Timeout(x, true)); // RequestVote to both peers; the pool's newest is the one to C (or B)
+        evs.push(Ev::Deliver(usize::MAX, true, true));
+        evs.push(Ev::Deliver(usize::MAX, true, true));
+    }
+    fn round(i: usize, j: usize, evs: &mut Vec<Ev>) {
+        evs.push(Ev::Replicate(i, j));
+        evs.push(Ev::Deliver(usize::MAX, true, true));
+        evs.push(Ev::Deliver(usize::MAX, true, true));
+    }
+    let mut next = || {
+        *payload += 1;
+        *payload
+    };
+    let mut evs = vec![];
+    elect(0, &mut evs); // A leader of term 1 (C's vote)
+    for _ in 0..a {
+        evs.push(Ev::Propose(0, next(), true));
+    }
+    for _ in 0..2 {
+        round(0, 1, &mut evs); // append + commit, then the commit index reaches the followers
+        round(0, 2, &mut evs);
+    }
+    for _ in 0..d {
+        evs.push(Ev::Propose(0, next(), true)); // A only: never replicated
+    }
+    elect(1, &mut evs); // B leader of term 2 (C's vote)
+    for _ in 0..m {
+        evs.push(Ev::Propose(1, next(), true));
+    }
+    round(1, 2, &mut evs); // C appends, B commits a+m
+    round(1, 2, &mut evs);
+    evs.push(Ev::Inject(1, 0, M::Rv(2, 1, a, 1), true, true)); // B's RequestVote reaches A late: A steps down into term 2
+    evs.push(Ev::Snap(1, 0, k));
+    for _ in 0..rounds {
+        round(1, 0, &mut evs);
+    }
+    if crash {
+        evs.push(Ev::Crash(0));
+    }
+    elect(0, &mut evs); // A leader of term 3 (C's vote) if its log is as up to date as C's
+    evs.push(Ev::Propose(0, next(), true));
+    round(0, 2, &mut evs);
+    round(0, 2, &mut evs);
+    round(0, 1, &mut evs);
+    round(0, 1, &mut evs);
+    evs
+}
+
 /// Directed templates: each is a full event script; they reproduce the two defects this
 /// tree repaired (match_index = whole log; stale-term ack) if the fixes are reverted.
 fn templates() -> Vec<(&'static str, Cfg, Vec<Ev>)> {
     let cfg3 = || Cfg { n: 3, pre_vote: false, fast_path: false, geo: false, wal: false };
     let cfg5 = || Cfg { n: 5, pre_vote: false, fast_path: false, geo: false, wal: false };
     let mut v = vec![];
+    // T0: snapshot install on a WAL-backed follower, then restart from the WAL (see `snap_shape`): the
+    // minimal history (snapshot over a divergent never-committed suffix, one entry on top, crash, election,
+    // commit) and its neighbours (snapshot covering the whole log / ending inside the divergent suffix /
+    // on a merely short log / without the restart / restart right after the install).
+    for (name, a, d, m, k, rounds, crash) in [
+        ("snapshot-over-divergent-suffix-then-restart", 1u64, 2u64, 3u64, 3u64, 1usize, true),
+        ("snapshot-over-whole-divergent-log-then-restart", 1, 2, 3, 4, 1, true),
+        ("snapshot-inside-divergent-suffix-then-restart", 1, 3, 3, 2, 2, true),
+        ("snapshot-on-short-log-then-restart", 2, 0, 3, 4, 1, true),
+        ("snapshot-over-divergent-suffix-no-restart", 1, 2, 3, 3, 1, false),
+        ("snapshot-over-divergent-suffix-restart-before-entries", 1, 2, 2, 3, 0, true),
+    ] {
+        let mut p = 100;
+        v.push((name, Cfg { n: 3, pre_vote: false, fast_path: false, geo: false, wal: true }, snap_shape(a, d, m, k, rounds, crash, &mut p)));
+    }
     // T1: stale suffix on C acknowledged on an empty heartbeat.
     v.push((
         "stale-suffix-ack",
@@ -915,11 +1064,13 @@ fn run_schedule(cfg: Cfg, events: Option<Vec<Ev>>, nev: usize, r: &mut Rng, rep:
     let mut cl = Cluster::new(cfg);
     let mut trace: Vec<String> = vec![init_line(&cl.cfg)];
     model.ask(&trace[0]);
-    let mut payload = 0u64;
+    let mut payload = if events.is_some() { 10_000u64 } else { 0 };
     let mut nontrivial = false;
     let mut all_ok = true;
     let mut model_on = true;
-    let total = events.as_ref().map_or(nev, Vec::len);
+    // a script may be followed by `nev` random events
+    let scripted = events.as_ref().map_or(0, Vec::len);
+    let total = scripted + nev;
     let partitioned = events.is_none() && r.chance(1, 2);
     let mut part: Option<Vec<u8>> = None;
     if partitioned {
@@ -927,13 +1078,13 @@ fn run_schedule(cfg: Cfg, events: Option<Vec<Ev>>, nev: usize, r: &mut Rng, rep:
     }
     for step in 0..total {
         let ev = match &events {
-            Some(es) => match &es[step] {
+            Some(es) if step < scripted => match &es[step] {
                 Ev::Deliver(k, g, e) if *k == usize::MAX => Ev::Deliver(cl.pool.len().saturating_sub(1), *g, *e),
                 e => e.clone(),
             },
-            None => {
+            _ => {
                 // half of the schedules run under a partition that is re-drawn every ~25 events
-                if partitioned && step % 25 == 0 {
+                if partitioned && (step - scripted) % 25 == 0 {
                     part = if r.chance(1, 4) { None } else { Some((0..cl.cfg.n).map(|_| r.below(2) as u8).collect::<Vec<u8>>()) };
                 }
                 gen_event(r, &cl, &mut payload, part.as_deref())
@@ -995,7 +1146,20 @@ fn main() {
             run_schedule(cfg, None, nev, &mut r, &mut rep, &mut model, "random");
         }
     }
-    rep.note("async tick/transport layer, snapshot install/compaction and membership change are not exercised (not modelled)");
+    // seeded stream: the snapshot-then-restart shape with random sizes / snapshot point / flags, followed by
+    // random events (more elections, replication, crashes) under the same monitors
+    let shapes = if args.thorough { 240 } else { 40 };
+    let mut r = root.fork("snap_restart");
+    for s in 0..shapes {
+        let (a, d, m) = (1 + r.below(2), r.below(4), 1 + r.below(4));
+        let k = 1 + r.below(a + m);
+        let cfg = Cfg { n: 3, pre_vote: r.chance(1, 2), fast_path: r.chance(1, 2), geo: r.chance(1, 2), wal: s % 8 != 7 };
+        let mut p = 100;
+        let evs = snap_shape(a, d, m, k, r.below(3) as usize, r.chance(4, 5), &mut p);
+        rep.hit(&format!("snap_restart.{}", if d == 0 { "short_log" } else if k <= a { "below_divergence" } else if k < a + d { "inside_suffix" } else { "over_suffix" }));
+        run_schedule(cfg, Some(evs), 30, &mut r, &mut rep, &mut model, "snap_restart");
+    }
+    rep.note("snapshot install: exercised as the event `snap src dst k` (leader src: finalize_to + create_snapshot of its committed prefix 1..=k; follower dst of the same term lacking entry k: install_snapshot, delivered at once, receiver's peer list kept) in the directed snapshot-* templates, the snap_restart stream and the random stream; install_snapshot checks neither the sender's term nor the receiver's role and keeps no suffix, so a snapshot delivered LATE (to a node that has moved on) is not generated; chunked transfer (SnapshotRequest/Response), log compaction (truncate_log) and membership change are not exercised; the async tick/transport layer is not exercised");
     rep.note("WAL persist failures are not injected; is_peer_healthy is always true (no membership manager)");
     rep.write(&args.out);
 }
